@@ -1102,7 +1102,7 @@ class Runner:
             guard += 1
 
     def report(self, chk, stream="gui"):
-        inp = dict(catalogue=CAT_TOKEN, events=list(self.events))
+        inp = dict(catalogue=CAT_TOKEN, events=list(self.events), **({"warnings_as_errors": True} if getattr(self, "strict", False) else {}))
         seen = set()
         for oracle, exp, obs, extra in self.fails:
             if (oracle, str(exp), str(obs)) in seen:
@@ -1409,7 +1409,7 @@ def compare_with_model(chk, drv, runs):
     lines = ["gui %s %s" % (CAT_TOKEN, " ".join(m[0])) for m in mev]
     outs = drv.run(lines, shards=min(core.NCPU, max(1, len(lines) // 300)))
     for r, o, (evs, idx) in zip(runs, outs, mev):
-        inp = dict(catalogue=CAT_TOKEN, events=list(r.events))
+        inp = dict(catalogue=CAT_TOKEN, events=list(r.events), **({"warnings_as_errors": True} if getattr(r, "strict", False) else {}))
         toks = o.split()
         if toks[:1] != ["ok"] or len(toks) - 1 != len(evs):
             chk.disagree("gui", inp, o[:300], "history of %d events" % len(evs))
@@ -1530,7 +1530,19 @@ def run(chk):
                 chk.notes.append("random histories stopped at %d (time budget)" % i)
                 break
             r = Runner(env, chk, fresh=(i % 15 == 0))
-            random_history(r, rng, maxdisp=2 if chk.quick else 3)
+            if i % 3 == 1:
+                # every third history runs in a process state some users have: numeric warnings (UserWarning, RuntimeWarning) raised as
+                # errors (pytest -W error, PYTHONWARNINGS=error).  The views must still show the latest request: a worker that only
+                # fails in that state leaves a view empty or stale, which the comparison with the library's numbers reports
+                import warnings
+                r.strict = True
+                with warnings.catch_warnings():
+                    warnings.simplefilter("error", UserWarning)
+                    warnings.simplefilter("error", RuntimeWarning)
+                    random_history(r, rng, maxdisp=2 if chk.quick else 3)
+                    chk.count("strict-warnings history")
+            else:
+                random_history(r, rng, maxdisp=2 if chk.quick else 3)
             finish(r, "random")
         if not chk.quick:
             # every canonical completion pattern of two fully overlapping requests (variants 0, 2: all 162; 1, 3: the 81 with A read first)
@@ -1616,9 +1628,14 @@ def replay(rp):
     env = Env()
     try:
         r = Runner(env, None, fresh=True)
-        for e in inp["events"]:
-            r.do(e)
-        r.drain()
+        import warnings
+        with warnings.catch_warnings():
+            if inp.get("warnings_as_errors"):       # the process state of the failing run is part of the input
+                warnings.simplefilter("error", UserWarning)
+                warnings.simplefilter("error", RuntimeWarning)
+            for e in inp["events"]:
+                r.do(e)
+            r.drain()
         for oracle, exp, obs, extra in r.fails:
             print("FAILS: %s\n   expected %s\n   observed %s" % (oracle, exp, obs))
         print("replay: %d failing clause(s) after %d events" % (len(r.fails), len(r.events)))
